@@ -147,7 +147,24 @@ pub fn run(args: &Args) -> i32 {
                     };
                     let seed = args.seed.wrapping_mul(1_000_003).wrapping_add(i as u64);
                     let id = format!("{}-{}-{}", args.campaign, args.seed, i);
-                    let res = dispatch(&scratch, meta, &args.campaign, &id, seed, args.len);
+                    let res = std::panic::catch_unwind(std::panic::AssertUnwindSafe(|| dispatch(&scratch, meta, &args.campaign, &id, seed, args.len)));
+                    let res = match res {
+                        Ok(r) => r,
+                        Err(e) => {
+                            // the harness itself gave up on this case: the library left it in a state
+                            // the campaign does not expect (never happens on the unchanged tree)
+                            let msg = e.downcast_ref::<&str>().map(|s| s.to_string()).or_else(|| e.downcast_ref::<String>().cloned()).unwrap_or_default();
+                            CaseResult {
+                                id: id.clone(),
+                                annot: String::new(),
+                                out: String::new(),
+                                viol: vec![Violation { prop: "*".into(), what: format!("the harness could not complete case {} (seed {}): {}", id, seed, msg) }],
+                                stats: Stats::default(),
+                                plain: Case { id: id.clone(), ops: vec![(false, Op::Open(Pol::AlwaysFlush))] },
+                                nontrivial: false,
+                            }
+                        }
+                    };
                     results.lock().unwrap().push((i, res));
                 });
             }
@@ -239,6 +256,7 @@ pub fn dispatch(scratch: &Path, meta: usize, campaign: &str, id: &str, seed: u64
         "damage" => crate::damage::case_damage(scratch, meta, id, seed, len, false, None),
         "damage-aimed" => crate::damage::case_damage(scratch, meta, id, seed, len, true, None),
         "crash" => crate::crash::case_crash(scratch, meta, id, seed, len, &crash_cfg(false), None),
+        "crash-fault" => crate::crash::case_crash(scratch, meta, id, seed, len, &crash_fault_cfg(), None),
         "crash-policies" => crate::crash::case_crash(scratch, meta, id, seed, len, &crash_cfg(true), None),
         other => panic!("unknown campaign {}", other),
     }
@@ -249,7 +267,13 @@ pub fn crash_cfg(all_policies: bool) -> crate::crash::CrashCfg {
         pols: if all_policies { ALL_POLS.to_vec() } else { vec![Pol::AlwaysFlush, Pol::AlwaysFlush, Pol::AlwaysFsync, Pol::DelayNowFlush] },
         max_points: std::env::var("VERIF_CRASH_POINTS").ok().and_then(|s| s.parse().ok()).unwrap_or(40),
         cont_every: 4,
+        fault_sweeps: false,
+        create_heavy_den: 10,
     }
+}
+
+pub fn crash_fault_cfg() -> crate::crash::CrashCfg {
+    crate::crash::CrashCfg { fault_sweeps: true, create_heavy_den: 3, cont_every: 8, ..crash_cfg(false) }
 }
 
 pub fn dispatch_replay(scratch: &Path, meta: usize, campaign: &str, case: &Case) -> CaseResult {
@@ -263,6 +287,7 @@ pub fn dispatch_replay(scratch: &Path, meta: usize, campaign: &str, case: &Case)
         "damage" => crate::damage::case_damage(scratch, meta, &id, 1, 0, false, Some(case)),
         "damage-aimed" => crate::damage::case_damage(scratch, meta, &id, 1, 0, true, Some(case)),
         "crash" => crate::crash::case_crash(scratch, meta, &id, 1, 0, &crash_cfg(false), Some(case)),
+        "crash-fault" => crate::crash::case_crash(scratch, meta, &id, 1, 0, &crash_fault_cfg(), Some(case)),
         "crash-policies" => crate::crash::case_crash(scratch, meta, &id, 1, 0, &crash_cfg(true), Some(case)),
         _ => case_replay(scratch, meta, case, campaign == "ops-journal"),
     }
